@@ -277,6 +277,7 @@ func init() {
 		setup: func(x *schedExec) {
 			o := smallOpts(x.dir)
 			o.BlockSize = 128
+			o.NumLevelZeroTables = 1 // two L0 tables are enough for the picker to compact L0
 			x.db = mustOpen(o)
 			// four accounts, one block each, flushed: the key ranges split between them
 			for _, k := range []string{"acct1", "acct2", "acct3", "acct4"} {
